@@ -166,3 +166,108 @@ theorem regionFormulaCheck_sound (atoms : Array (List Seg)) (f : Array Bool → 
         · rw [filter_below_outside (tagAll atoms) lo hi hbounds q (Or.inr hr)]; exact hout
 
 end Gbo.Spec
+
+namespace Gbo.Spec
+open Gbo Gbo.Props
+
+/-! ### positive tolerance: the statement is about the cells that were checked -/
+
+/-- `q` lies in a slab wider than the tolerance and its cell is thicker than the tolerance -/
+def InCheckedCell (all : List Tagged) (tol : Rat) : List Rat → Pt → Prop
+  | x0 :: x1 :: rest, q =>
+    (x0 < q.x ∧ q.x < x1 ∧ tol < x1 - x0 ∧ ThickAt all tol x0 x1 q) ∨ InCheckedCell all tol (x1 :: rest) q
+  | _, _ => False
+
+theorem checkSlabs_sound_tol (all : List Tagged) (f : Array Bool → Bool) (n : Nat) (tol : Rat) (htol : 0 ≤ tol) :
+    ∀ (xs : List Rat) (acc : Nat × Nat) (c t : Nat), checkSlabs all f n tol xs acc = .ok c t →
+      ∀ q : Pt, InCheckedCell all tol xs q → (∀ u ∈ all, onSeg q u.seg = false) →
+        f (vecOf n (all.filter (fun u => edgeBelow q u.seg))) = true := by
+  intro xs
+  induction xs with
+  | nil => intro acc c t _ q hb; exact absurd hb (by simp [InCheckedCell])
+  | cons x0 rest ih =>
+    cases rest with
+    | nil => intro acc c t _ q hb; exact absurd hb (by simp [InCheckedCell])
+    | cons x1 rest =>
+      intro acc c t h q hb hclear
+      simp only [checkSlabs] at h
+      by_cases hthin : x1 - x0 ≤ tol
+      · simp only [hthin, if_true] at h
+        by_cases h01 : x0 < x1
+        · simp only [h01, if_true] at h
+          rcases hb with ⟨_, _, hw, _⟩ | hb
+          · exact absurd hthin (not_le.mpr hw)
+          · exact ih _ c t h q hb hclear
+        · simp [h01] at h
+      · simp only [hthin, if_false] at h
+        have h01 : x0 < x1 := by
+          have := not_le.mp hthin; linarith
+        cases hs : checkSlab all f n tol x0 x1 acc with
+        | inl r =>
+          rw [hs] at h
+          simp only at h
+          exact absurd h (checkSlab_inl_ne_ok all f n tol x0 x1 acc r hs c t)
+        | inr acc' =>
+          rw [hs] at h
+          simp only at h
+          rcases hb with ⟨h0, h1, _, hth⟩ | hb
+          · exact checkSlab_sound_tol all f n tol x0 x1 acc acc' htol h01 hs q h0 h1 hclear (Or.inr hth)
+          · exact ih acc' c t h q hb hclear
+
+/-- **Soundness of the region comparator for any tolerance ≥ 0**: if it answers `ok`, the formula holds at
+    every point that lies on no edge and either left / right of all edges or in a checked cell (a slab wider
+    than the tolerance, in a gap thicker than the tolerance).  The skipped cells are exactly the ones the
+    checker counts as `thin`. -/
+theorem regionFormulaCheck_sound_tol (atoms : Array (List Seg)) (f : Array Bool → Bool) (tol : Rat) (htol : 0 ≤ tol)
+    (c t : Nat) (h : regionFormulaCheck atoms f tol = .ok c t) (q : Pt)
+    (hclear : ∀ i, i < atoms.size → ∀ e ∈ atoms[i]!, onSeg q e = false)
+    (hcell : (∀ y ∈ breakpoints (tagAll atoms), q.x < y) ∨ (∀ y ∈ breakpoints (tagAll atoms), y < q.x)
+             ∨ InCheckedCell (tagAll atoms) tol (breakpoints (tagAll atoms)) q) :
+    f (atoms.map (fun es => memEdges es q)) = true := by
+  rw [memVec_eq_vecOf]
+  unfold regionFormulaCheck at h
+  simp only at h
+  have hclear' : ∀ u ∈ tagAll atoms, onSeg q u.seg = false := by
+    intro u hu
+    obtain ⟨h1, h2⟩ := mem_tagAll hu
+    exact hclear u.atom h1 u.seg h2
+  by_cases hbounds : boundsOk (tagAll atoms) (breakpoints (tagAll atoms)) = true
+  swap
+  · simp [hbounds] at h
+  simp only [hbounds, Bool.not_true, Bool.false_eq_true, if_false] at h
+  by_cases hout : f (vecOf atoms.size []) = true
+  swap
+  · simp [hout] at h
+  simp only [hout, Bool.not_true, Bool.false_eq_true, if_false] at h
+  generalize hxs : breakpoints (tagAll atoms) = xs at h hbounds hcell
+  unfold boundsOk at hbounds
+  rcases hcell with hl | hr | hin
+  · cases hhead : xs.head? with
+    | none =>
+      rw [hhead] at hbounds; simp only at hbounds
+      have : tagAll atoms = [] := by simpa using hbounds
+      rw [this]; simpa using hout
+    | some lo =>
+      cases hlast : xs.getLast? with
+      | none => have : xs = [] := List.getLast?_eq_none_iff.mp hlast
+                rw [this] at hhead; simp at hhead
+      | some hi =>
+        rw [hhead, hlast] at hbounds; simp only at hbounds
+        rw [filter_below_outside (tagAll atoms) lo hi hbounds q (Or.inl (hl lo (List.mem_of_head? hhead)))]
+        exact hout
+  · cases hhead : xs.head? with
+    | none =>
+      rw [hhead] at hbounds; simp only at hbounds
+      have : tagAll atoms = [] := by simpa using hbounds
+      rw [this]; simpa using hout
+    | some lo =>
+      cases hlast : xs.getLast? with
+      | none => have : xs = [] := List.getLast?_eq_none_iff.mp hlast
+                rw [this] at hhead; simp at hhead
+      | some hi =>
+        rw [hhead, hlast] at hbounds; simp only at hbounds
+        rw [filter_below_outside (tagAll atoms) lo hi hbounds q (Or.inr (hr hi (List.mem_of_getLast? hlast)))]
+        exact hout
+  · exact checkSlabs_sound_tol (tagAll atoms) f atoms.size tol htol xs (0, 0) c t h q hin hclear'
+
+end Gbo.Spec
